@@ -188,6 +188,9 @@ var pkgDirs = []struct{ dir, name string }{
 	{"", "root"}, {"a", "a"}, {"b", "beta"}, {"a/sub", "sub"}, {"pkg/x", "x"}, {"internal/y", "why"}, {"cmd/tool", "main"}, {"c-d", "cd"}, {"v1", "v1"},
 }
 
+// genericOrAlias: names of the package under construction that cannot be the target of an alias declaration
+var genericOrAlias = map[string]bool{}
+
 func genTypeDecl(t *rapid.T, name string, o modOpts, truth *PkgTruth, pkgLevelNames []string, local bool) modspec.Decl {
 	kind := rapid.SampledFrom([]string{"struct", "struct", "scalar", "map", "slice", "functype", "iface", "alias", "generic"}).Draw(t, "dkind")
 	if local && (kind == "generic") {
@@ -202,8 +205,16 @@ func genTypeDecl(t *rapid.T, name string, o modOpts, truth *PkgTruth, pkgLevelNa
 			d.Fields = append(d.Fields, modspec.Field{Names: []string{fmt.Sprintf("F%d", i)}, Type: rapid.SampledFrom([]string{"int", "string", "[]byte", "map[string]int", "*int"}).Draw(t, "ftype")})
 		}
 	case "alias":
-		d.Type = rapid.SampledFrom([]string{"int", "string", "[]int", "struct{}"}).Draw(t, "aliasto")
+		d.Type = rapid.SampledFrom([]string{"int", "string", "[]int", "struct{}", "error"}).Draw(t, "aliasto")
+		// an alias of a defined type of the same package: must still only reach GenerateAliasType
+		if !local && len(pkgLevelNames) > 0 && rapid.Bool().Draw(t, "aliasnamed") {
+			if tgt := rapid.SampledFrom(pkgLevelNames).Draw(t, "aliastarget"); !genericOrAlias[tgt] {
+				d.Type = tgt
+			}
+		}
+		genericOrAlias[name] = true
 	case "generic":
+		genericOrAlias[name] = true
 		d.TP = "T"
 		if o.locals && len(pkgLevelNames) > 0 && rapid.Bool().Draw(t, "shadowtp") {
 			d.TP = rapid.SampledFrom(pkgLevelNames).Draw(t, "tpname")
@@ -224,6 +235,7 @@ func genTypeDecl(t *rapid.T, name string, o modOpts, truth *PkgTruth, pkgLevelNa
 
 func genPkg(t *rapid.T, m *modspec.Mod, idx int, dir, name string, o modOpts, later []string) (modspec.Pkg, PkgTruth) {
 	truth := PkgTruth{Decl: map[string]TagSet{}, Local: map[string]TagSet{}}
+	genericOrAlias = map[string]bool{}
 	p := modspec.Pkg{Dir: dir, Name: name}
 	if rapid.IntRange(0, o.pkgTagBias).Draw(t, "pkgtags") == 0 {
 		truth.Tags = genTagSet(t, o.gens, 1)
